@@ -553,6 +553,7 @@ pub struct RawUndo {
     castling: CastlingRights,
     ep_source: Option<Coord>,
     move_counter: u16,
+    move_number: u16,
 }
 
 fn update_castling(b: &mut Board, change: Bitboard) {
@@ -688,6 +689,7 @@ fn do_make_move<C: generic::Color>(b: &mut Board, mv: Move) -> RawUndo {
         castling: b.r.castling,
         ep_source: b.r.ep_source,
         move_counter: b.r.move_counter,
+        move_number: b.r.move_number,
     };
     let src = Bitboard::from_coord(mv.src);
     let dst = Bitboard::from_coord(mv.dst);
@@ -749,12 +751,12 @@ fn do_make_move<C: generic::Color>(b: &mut Board, mv: Move) -> RawUndo {
     if dst_cell != Cell::EMPTY || src_cell == pawn {
         b.r.move_counter = 0;
     } else {
-        b.r.move_counter += 1;
+        b.r.move_counter = b.r.move_counter.saturating_add(1);
     }
     b.r.side = C::COLOR.inv();
     b.hash ^= zobrist::MOVE_SIDE;
     if C::COLOR == Color::Black {
-        b.r.move_number += 1;
+        b.r.move_number = b.r.move_number.saturating_add(1);
     }
     b.all = b.white | b.black;
 
@@ -815,10 +817,8 @@ fn do_unmake_move<C: generic::Color>(b: &mut Board, mv: Move, u: RawUndo) {
     b.r.castling = u.castling;
     b.r.ep_source = u.ep_source;
     b.r.move_counter = u.move_counter;
+    b.r.move_number = u.move_number;
     b.r.side = C::COLOR;
-    if C::COLOR == Color::Black {
-        b.r.move_number -= 1;
-    }
     b.all = b.white | b.black;
 }
 
